@@ -17,6 +17,14 @@ ADDED = {
  "C02_4": "`c10_device` (devices started, cancelled and closed under the aio monitor) added to the C02 plan; it was already caught by C10",
  "C03_4": "list-walk scheduling points in the simulator (`sim/listpts.c`) + scenario `c03_subctx` (SUB contexts opened/closed while the receive path walks the context list)",
  "C11_4": "mutation kind `backtrace ends in a partial word` in `c11_sp`/`c11_udp` (before it the catch was 1 run in 2900)",
+ "C04_5": "`c04_dead`: receive after a send that died (refused on the spot, timed out, cancelled, superseded) must fail with NNG_ESTATE",
+ "C07_5": "scenario `c07_collect` (one aio, timeout set once, reused for every receive of every survey); `c07_surv` reuses receive aios; the aio monitor now also judges submissions refused with NNG_ETIMEDOUT (which exposed a genuine defect of the baseline next to the seeded one)",
+ "C09_4": "scenario `c09_reflect` (bursts through a raw BUS hub run by nng_device, reflector or two sockets)",
+ "C12_4": "scenario `c12_latepeer` (request made while no replier is reachable, first copies ignored; before it the catch was 1 run in 3100)",
+ "C13_4": "`c13_chain` changes NNG_OPT_MAXTTL after the peers are connected",
+ "C13_5": "back-pressure burst in `c08_hops` (messages parked behind a busy connection with SENDBUF in use), `c08_hops` added to the C13 plan",
+ "C16_5": "long pipelined request trains (more than the server's read buffer) in `c16_http_srv` (before it the catch was 2 runs in 4000)",
+ "C20_5": "`c20_http`: two connects outstanding on one HTTP client, a connect may not time out",
  "C10_5": "extra peers arriving through a slow ADD_POST callback in `c10_close` (connections parked between negotiation and accept)",
  "C14_4": "scenario `c14_subset` (subsets of the pipe events registered, registrations dropped while a pipe is up)",
  "C14_5": "scenario `c14_churn` (listener closed and replaced while dialers redial)",
